@@ -106,6 +106,16 @@ def group_observations(obs_by_cfg):
     return sorted(groups.values(), key=lambda g: -len(g))
 
 
+def split_class(groups):
+    """how the configurations split: 'legacy-vs-venom' when every group is pure in the pipeline, else the first configuration
+    of the second group"""
+    def pipes(g):
+        return {n.split("-")[0] for n in g}
+    if all(len(pipes(g)) == 1 for g in groups) and len({tuple(pipes(g)) for g in groups}) == 2 and len(groups) == 2:
+        return "legacy-vs-venom"
+    return groups[1][0]
+
+
 def part_generated(ctx, cfgs):
     t0 = time.time()
     n = 40 if ctx.tier == "quick" else 100
@@ -126,7 +136,8 @@ def part_generated(ctx, cfgs):
                 continue
             res, sto = o
             per[cfg.name] = ([(ok, out.hex(), tuple((tuple(x.hex() for x in t), d.hex()) for t, d in logs)) for ok, out, logs in res],
-                             sorted(sto.items()))
+                             sorted((k, v) for k, v in sto.items() if k != "$maps"),
+                             [(n_, e_, g_) for n_, _s, e_, g_ in sto.get("$maps", [])])
             n_cmp += len(res)
         groups = group_observations(per)
         if len(groups) > 1 and reported < 3:
@@ -141,7 +152,7 @@ def part_generated(ctx, cfgs):
                            "calls": [{"function": it["prog"].exts[c.fidx].abi_sig(), "calldata": H.calldata(it["prog"].exts[c.fidx], c).hex(),
                                       "sender": c.sender, "value": c.value} for c in it["calls"]],
                            "vs_source_semantics": {a: da, bname: db}},
-                          key=f"C02:gen:{groups[1][0]}")
+                          key=f"C02:gen:{split_class(groups)}")
     for exc, lst in crashes.items():
         i, cfg, msg = lst[0]
         prog = items[i]["prog"]
@@ -190,9 +201,24 @@ def narrow_crash(exc, cfg, src):
     return cfg, "+".join(cfg.flags) or cfg.name
 
 
+_REPORTED = set()
+
+
 def report_crash(ctx, exc, cfg, msg, src, count):
     """a program accepted by the reference configuration that crashes the compiler under another configuration"""
-    first_line = (msg.strip().splitlines() or [""])[0][:60]
+    sig = (exc, (msg.strip().splitlines() or [""])[0][:60], cfg.evm if exc == "TargetOpcodeError" else "+".join(cfg.flags))
+    if sig in _REPORTED:
+        return
+    _REPORTED.add(sig)
+    import re as _re
+    first_line = _re.sub(r"\d+", "N", _re.sub(r"\s+", " ", (msg.strip().splitlines() or [""])[0]))[:70].strip()
+    if exc == "TargetOpcodeError":
+        ctx.violation("failing-input", f"{msg} under {cfg.name}",
+                      {"config": cfg.name, "settings": str(cfg.settings()), "message": msg, "source": src,
+                       "how": "compile with output formats asm, asm_runtime and look for the opcode",
+                       "expected": "only opcodes that exist on the selected EVM target (C02: every EVM target is a supported configuration)"},
+                      key=f"C02:target-opcode:{msg.split()[1]}:{cfg.evm}")
+        return
     try:
         cfg, why = narrow_crash(exc, cfg, src)
     except Exception:
@@ -325,6 +351,46 @@ def t() -> uint256:
     self.arr[1] = 8
     return self.h(self.arr[1], self.wr())
 """),
+    ("regress/disable_branch_optimization_stack_reorder", """
+t0: bool
+
+@external
+def f0(a0: uint256, a2: bool) -> int256:
+    if self.t0:
+        self.t0 = a2
+    assert (self.t0 or (not (self.t0 and (not self.t0))))
+    assert (a2 and self.t0)
+    return (convert(a0, int256) ^ 1)
+"""),
+    ("regress/venom_loop_store_forwarding", """
+s1: uint256
+s2: int256
+
+@external
+def f1(a1: uint256) -> uint256:
+    self.s1 = a1
+    for v0: uint8 in range(2):
+        self.s1 += a1
+    return self.s1
+
+@external
+def f2(a1: int256) -> int256:
+    self.s2 = a1
+    for v0: uint8 in range(3):
+        self.s2 = (-self.s2) - a1
+    return self.s2
+"""),
+    ("regress/disable_load_elimination_dse_valueerror", """
+struct St0:
+    m0: uint256
+    m1: bool
+
+@external
+def f2(a0: uint256) -> uint256:
+    v0: St0 = St0(m0=(a0 + a0), m1=(a0 == a0))
+    v1: uint256 = min((a0 // 2), v0.m0)
+    return 4
+"""),
     ("regress/default_empty_bucket", """
 event Fell:
     x: uint256
@@ -358,7 +424,7 @@ def __default__():
 def load_corpus(ctx):
     jobs = []
     for name, src in REGRESS:
-        jobs.append({"name": name, "src": src, "helper": None, "min_evm": None})
+        jobs.append({"name": name, "src": src, "helper": None, "min_evm": None, "regress": True})
     try:
         from vlib import c02_corpus
         for ent in c02_corpus.CORPUS:
@@ -395,9 +461,13 @@ def part_corpus(ctx, cfgs):
         job["plan"] = plan
         job["abi"] = abi
         usable.append(job)
+    # minimized past failures additionally run under every single disable flag (they are tiny)
+    from vlib.configs import Config, USABLE_FLAGS
+    n_base = len(cfgs)
+    cfgs = list(cfgs) + [Config(True, "gas", "cancun", flags=[f]) for f in USABLE_FLAGS]
     _JOBS = {"jobs": usable, "cfgs": cfgs}
     work = [(k, j) for k, job in enumerate(usable) for j, cfg in enumerate(cfgs)
-            if not (job["min_evm"] == "cancun" and cfg.evm in R.PRE_CANCUN)]
+            if not (job["min_evm"] == "cancun" and cfg.evm in R.PRE_CANCUN) and (j < n_base or job.get("regress"))]
     out = {}
     with mp.get_context("fork").Pool(3) as pool:
         for k, j, st, o in pool.imap_unordered(_corpus_one, work, chunksize=2):
@@ -430,7 +500,7 @@ def part_corpus(ctx, cfgs):
                            "calls": [{"function": c["name"], "calldata": c["data"].hex(), "value": c["value"], "sender": c["sender"],
                                       "args": c.get("args")} for c in job["plan"]],
                            "helper_deployed_first": job["helper"] is not None},
-                          key=f"C02:{job['name']}:{b}")
+                          key=f"C02:{job['name']}:{split_class(groups)}")
     for (exc, fl), lst in crashes.items():
         k, cfg, msg = lst[0]
         report_crash(ctx, exc, cfg, msg, usable[k]["src"], len(lst))
